@@ -477,7 +477,7 @@ package transport
 //@   prop C14
 //@   requires t != nil && g != nil
 //@   assert at return 1 result1 == ErrConnClosing && !result0 && ncalls("WriteGoAway") == 0
-//@   assert at call Unlock#3 !g.headsUp && t.state == draining && sid == t.maxStreamID
+//@   assert at call Unlock#3 held("mu") && held("maxStreamMu") && !g.headsUp && t.state == draining && sid == t.maxStreamID
 //@   assert at call WriteGoAway#1 !g.headsUp && arg1 == sid && arg2 == g.code
 //@   assert at call WriteGoAway#2 g.headsUp && arg1 == math.MaxUint32 && arg2 == http2.ErrCodeNo
 //@   assert at call WritePing#1 arg1 == false && ncalls("WriteGoAway") == 1
@@ -492,6 +492,8 @@ package transport
 //@   requires t != nil && f != nil
 //@   loop 1 invariant t.prevGoAwayID == id && upperLimit >= 0
 //@   assert at return 2 id > 0 && id%2 == 0 && ncalls("closeStream") == 0 && ncalls("Store") == 0
+//@   assert at call setGoAwayReason#1 !(id > 0 && id%2 == 0)
+//@   assert at call append#1 !(id > 0 && id%2 == 0)
 //@   assert at return 3 id > t.prevGoAwayID && ncalls("closeStream") == 0 && ncalls("Store") == 0
 //@   assert at call Store#1 arg1 == true && streamID > id && streamID <= upperLimit && t.prevGoAwayID == id
 //@   assert at call append#1 streamID > id && streamID <= upperLimit && sameslice(arg0, streamsToClose)
